@@ -197,7 +197,7 @@ func checkGauge(w *world, c cfg, wit map[string]interface{}) {
 		wit["high_water"] = w.highWater.Load()
 		run.Violation("parallelism-exceeded", "gauge", fmt.Sprintf("%d jobs were running at once on a pool of %d workers", w.highWater.Load(), c.Workers), wit)
 	}
-	run.Add("max_parallelism_seen", 0)
+	run.Max("max_parallelism_seen", int64(w.highWater.Load()))
 }
 
 var leakFailures int
